@@ -172,32 +172,12 @@ func acceptedIncrease(gs *GroupScan) (time.Time, int64, bool) {
 	var at time.Time
 	var amt int64
 	ok := false
-	// Where the request boundaries on the provider were recorded, "accepted" is what the provider told the
-	// controller: an IncreaseSize that returned without error (refused calls repeated inside it, or a
-	// failed attach retried, are the provider's business). The instant is the last acknowledged cloud
-	// write inside that request.
-	sawReq := false
-	for _, r := range gs.Reqs {
-		if r.Kind != "increase" {
-			continue
-		}
-		sawReq = true
-		if !r.Done || r.Err != "" {
-			continue
-		}
-		for _, c := range gs.Calls {
-			if c.Seq > r.Seq0 && c.Seq <= r.Seq1 && c.Err == "" && (c.Op == OpSetDesired || c.Op == OpAttach) {
-				at, amt, ok = c.T1, r.Delta, true
-			}
-		}
-	}
-	if sawReq {
-		return at, amt, ok
-	}
+	// (1) the cloud accepted: an acknowledged SetDesiredCapacity, or every instance of a fleet attached with an
+	// acknowledgement and none of them handed back (attach calls that were refused and repeated do not matter)
 	var fleet *Call
 	attached := map[string]bool{}
 	var lastAttach *Call
-	failed := false
+	handedBack := false
 	for _, c := range gs.Calls {
 		switch c.Op {
 		case OpSetDesired:
@@ -208,26 +188,30 @@ func acceptedIncrease(gs *GroupScan) (time.Time, int64, bool) {
 				}
 			}
 		case OpCreateFleet:
-			fleet, attached, lastAttach, failed = c, map[string]bool{}, nil, false
+			fleet, attached, lastAttach, handedBack = c, map[string]bool{}, nil, false
 			if c.Err != "" || len(c.IDs) == 0 {
 				fleet = nil
 			}
 		case OpAttach:
-			if fleet != nil {
-				if c.Err != "" {
-					failed = true
-				} else {
-					for _, id := range c.IDs {
-						attached[id] = true
-					}
-					lastAttach = c
+			if fleet != nil && c.Err == "" {
+				for _, id := range c.IDs {
+					attached[id] = true
 				}
+				lastAttach = c
 			}
 		case OpTerminateEC2:
-			failed = true
+			if fleet != nil {
+				for _, id := range c.IDs {
+					for _, f := range fleet.IDs {
+						if f == id {
+							handedBack = true
+						}
+					}
+				}
+			}
 		}
 	}
-	if fleet != nil && !failed && lastAttach != nil {
+	if fleet != nil && !handedBack && lastAttach != nil {
 		all := true
 		for _, id := range fleet.IDs {
 			if !attached[id] {
@@ -236,6 +220,21 @@ func acceptedIncrease(gs *GroupScan) (time.Time, int64, bool) {
 		}
 		if all {
 			at, amt, ok = lastAttach.T1, int64(len(fleet.IDs)), true
+		}
+	}
+	if ok {
+		return at, amt, ok
+	}
+	// (2) or the provider told the controller so: an IncreaseSize that returned without error (its boundaries
+	// are recorded at the NodeGroup seam). The instant is the last acknowledged cloud write inside it.
+	for _, r := range gs.Reqs {
+		if r.Kind != "increase" || !r.Done || r.Err != "" {
+			continue
+		}
+		for _, c := range gs.Calls {
+			if c.Seq > r.Seq0 && c.Seq <= r.Seq1 && c.Err == "" && (c.Op == OpSetDesired || c.Op == OpAttach) {
+				at, amt, ok = c.T1, r.Delta, true
+			}
 		}
 	}
 	return at, amt, ok
